@@ -32,7 +32,7 @@ def _run(args):
 
 def sig(t, v):
     ev = v.event if isinstance(v.event, dict) else {}
-    mode = "eqlr" if t["cfg"].get("eq_lr") else ("shared" if t["cfg"]["shared"] else "own")
+    mode = "eqval" if t["cfg"].get("eq_lr") == "value" else "eqlr" if t["cfg"].get("eq_lr") else ("shared" if t["cfg"]["shared"] else "own")
     return f"hp:{t['cfg']['algo']}:{mode}:{ev.get('op', '?')}:{(v.clauses[0] if v.clauses else v.invariant)}"
 
 
@@ -44,7 +44,7 @@ def what(t, v):
 def run(ctx):
     quick = ctx.quick
     rng = random.Random(ctx.seed)
-    ctx.mc("EvoHP_MC", "EvoHP_MC.cfg", must_cover=["MutateHP", "Copy"])
+    ctx.mc("EvoHP_MC", "EvoHP_MC.cfg", must_cover=["MutateHP", "Copy", "Assign"])
     algos = ["DQN", "DDPG", "TD3", "PPO", "IPPO", "MADDPG"] if quick else zoo.ALGOS
     jobs = []
     j = 0
@@ -67,12 +67,20 @@ def run(ctx):
                         ops.append(("copy", a, c))
                 jobs.append((algo, NA, ops, exact, ctx.seed + j, True))
                 j += 1
+        # values assigned from outside between mutations (the next mutation must start from them)
+        jobs.append((algo, 2, [("mutate", 1), ("set", 1, 0), ("mutate", 1), ("mutate", 1), ("set", 1, 1), ("mutate", 1), ("mutate", 1), ("copy", 1, 2),
+                               ("set", 2, 0), ("mutate", 2), ("mutate", 2), ("mutate", 2), ("set", 1, 0), ("mutate", 1), ("mutate", 1), ("mutate", 1)],
+                     True, ctx.seed + j, True))
+        j += 1
         jobs.append((algo, 2, [("learn", 1, 1), ("mutate", 1), ("mutate", 2), ("learn", 1, 2), ("mutate", 1), ("mutate", 1), ("mutate", 1), ("mutpop",),
                                ("mutate", 1), ("mutate", 1), ("mutate", 2)], True, ctx.seed + j, False))
         j += 1
         if algo in ("DDPG", "TD3", "MADDPG", "MATD3"):
             # equal initial values of lr_actor and lr_critic (a legitimate configuration)
             jobs.append((algo, 2, [("mutate", 1 + k % 2) for k in range(10)], True, ctx.seed + j, True, True))
+            j += 1
+            # the same with two distinct float objects of equal value
+            jobs.append((algo, 2, [("mutate", 1 + k % 2) for k in range(10)], True, ctx.seed + j, True, "value"))
             j += 1
     with ProcessPoolExecutor(max_workers=12) as ex:
         traces = list(ex.map(_run, jobs))
